@@ -237,12 +237,12 @@ Proof. intros E [H1 H2]. split; [|exact H2]. intros i Hi. rewrite <- (H1 i Hi). 
 
 (* [solve] is sound whatever the untrusted producer [gj] returns *)
 Theorem solve_inv_sound m n (A M : mat) : solve m n A = S_inv M -> left_inverse_cert n M (gram m A).
-Proof. unfold solve. destruct (gj n _) as [rows|w].
+Proof. unfold solve, solve_g. destruct (gj n _) as [rows|w].
   - destruct (cert_okb n (mofr rows) _) eqn:E; [|discriminate]. intros H. injection H as <-.
     apply (left_inverse_cert_ext n _ _ _ (mfrz_spec n n (gram m A))). now apply cert_okb_spec.
   - destruct (ker_okb n _ _); discriminate. Qed.
 Theorem solve_ker_sound m n (A : mat) (w : vec) : solve m n A = S_ker w -> kernel_cert n (gram m A) w.
-Proof. unfold solve. destruct (gj n _) as [rows|w'].
+Proof. unfold solve, solve_g. destruct (gj n _) as [rows|w'].
   - destruct (cert_okb n _ _); discriminate.
   - destruct (ker_okb n _ (vofl w')) eqn:E; [|discriminate]. intros H. injection H as <-.
     apply (kernel_cert_ext n _ _ _ (mfrz_spec n n (gram m A))). now apply ker_okb_spec. Qed.
@@ -251,9 +251,9 @@ Proof. unfold solve. destruct (gj n _) as [rows|w'].
 Definition flat_ok (m : nat) (ds : dataset F) (f : list F) : Prop :=
   vstack_flatten (map snd ds) = Some f /\ length f = m.
 
-Lemma est_loop_spec one m : forall sq acc xs,
+Lemma est_loop_spec (one : list F -> list F) m : forall (sq : list (dataset F)) acc xs,
   est_loop one m sq acc = E_ok xs <-> exists fs, Forall2 (flat_ok m) sq fs /\ xs = acc ++ map one fs.
-Proof. induction sq as [|ds rest IH]; intros acc xs; cbn [est_loop].
+Proof. induction sq as [|ds rest IH]; intros acc xs; simpl.
   - split.
     + intros H. injection H as <-. exists []. split; [constructor|]. cbn. now rewrite app_nil_r.
     + intros [fs [H ->]]. inversion H. cbn. now rewrite app_nil_r.
@@ -268,14 +268,14 @@ Proof. induction sq as [|ds rest IH]; intros acc xs; cbn [est_loop].
       cbn. now rewrite <- app_assoc. Qed.
 
 (* sample counts are not used: datasets with the same distributions give the same result, error branches included *)
-Lemma est_loop_counts one m : forall sq sq' acc,
+Lemma est_loop_counts (one : list F -> list F) m : forall (sq sq' : list (dataset F)) acc,
   map (map snd) sq = map (map snd) sq' -> est_loop one m sq acc = est_loop one m sq' acc.
 Proof. induction sq as [|ds rest IH]; intros [|ds' rest'] acc H; try discriminate; [reflexivity|].
-  cbn in H. injection H as H1 H2. cbn [est_loop]. rewrite H1.
+  cbn in H. injection H as H1 H2. simpl. rewrite H1.
   destruct (vstack_flatten (map snd ds')) as [f|]; [|reflexivity].
   destruct (Nat.eqb (length f) m); [|reflexivity]. now apply IH. Qed.
 
-Theorem counts_irrelevant m n (A : mat) b sq sq' :
+Theorem counts_irrelevant m n (A : mat) b (sq sq' : list (dataset F)) :
   map (map snd) sq = map (map snd) sq' ->
   calc_estimate_sequence m n A b sq = calc_estimate_sequence m n A b sq'.
 Proof. intros H. unfold calc_estimate_sequence. destruct (negb (coded_guard m n A)); [reflexivity|].
@@ -306,9 +306,23 @@ Theorem sequence_is_map m n (A : mat) b sq xs :
   Forall2 (fun ds x => calc_estimate m n A b ds = E_ok [x]) sq xs.
 Proof. unfold calc_estimate, calc_estimate_sequence. destruct (negb (coded_guard m n A)); [discriminate|].
   destruct (solve m n A) as [M|w|]; try discriminate.
-  intros H. apply est_loop_spec in H. destruct H as [fs [H ->]]. cbn.
-  induction H as [|ds f sq fs Hf _ IH]; cbn; constructor; [|exact IH].
-  apply est_loop_spec. exists [f]. split; [constructor; [exact Hf|constructor]|reflexivity]. Qed.
+  intros H. apply est_loop_spec in H. destruct H as [fs [H ->]]. cbn [app].
+  induction H as [|ds f sq fs Hf _ IH]; cbn [map]; constructor; [|exact IH].
+  apply (proj2 (est_loop_spec _ m [ds] [] _)). exists [f]. split; [constructor; [exact Hf|constructor]|reflexivity]. Qed.
+
+Theorem sequence_is_map_var m n (A : mat) b sq xs :
+  calc_estimate_sequence m n A b sq = E_ok xs ->
+  Forall2 (fun ds x => calc_estimate m n A b ds = E_ok [x] /\ estimated_var [x] = x) sq xs.
+Proof. intros H. pose proof (sequence_is_map m n A b sq xs H) as H1. clear H.
+  induction H1 as [|ds x sq xs Hx _ IH]; constructor; [split; [exact Hx|reflexivity]|exact IH]. Qed.
+
+Lemma est_loop_forall2 (one : list F -> list F) m (sq : list (dataset F)) xs :
+  Forall2 (fun ds x => est_loop one m [ds] [] = E_ok [x]) sq xs -> est_loop one m sq [] = E_ok xs.
+Proof. intros H. apply est_loop_spec. induction H as [|ds x sq xs Hx _ IH].
+  - exists []. split; [constructor|reflexivity].
+  - destruct IH as [fs [H1 H2]]. apply est_loop_spec in Hx. destruct Hx as [fs1 [Hf E]].
+    inversion Hf as [|? f ? ? Hf1 Hf2]. subst. inversion Hf2. subst.
+    cbn in E. injection E as ->. exists (f :: fs). split; [constructor; assumption|reflexivity]. Qed.
 
 Theorem map_is_sequence m n (A : mat) b sq xs : sq <> [] ->
   Forall2 (fun ds x => calc_estimate m n A b ds = E_ok [x]) sq xs ->
@@ -317,15 +331,46 @@ Proof. unfold calc_estimate, calc_estimate_sequence. intros Hne H.
   destruct sq as [|ds0 sq0]; [congruence|]. clear Hne.
   destruct (negb (coded_guard m n A)). { inversion H; discriminate. }
   destruct (solve m n A) as [M|w|]; try (inversion H; discriminate).
-  apply est_loop_spec. remember (ds0 :: sq0) as sq eqn:Esq. clear Esq.
-  induction H as [|ds x sq xs Hx _ IH].
-  - exists []. split; [constructor|reflexivity].
-  - destruct IH as [fs [H1 H2]]. apply est_loop_spec in Hx. destruct Hx as [fs1 [Hf E]].
-    inversion Hf as [|? f ? ? Hf1 Hf2]; subst. inversion Hf2; subst. cbn in E. injection E as ->.
-    exists (f :: fs). split; [constructor; assumption|]. cbn in *. now rewrite H2. Qed.
+  now apply est_loop_forall2. Qed.
 
 Theorem estimated_var_single m n (A : mat) b ds x : calc_estimate m n A b ds = E_ok [x] -> estimated_var [x] = x.
 Proof. reflexivity. Qed.
+
+(* when exactly does np.vstack(...).flatten() succeed: at least one block, all blocks of one length *)
+Lemma vstack_flatten_spec (blocks : list (list F)) f :
+  vstack_flatten blocks = Some f <->
+  blocks <> [] /\ (forall b, In b blocks -> length b = length (hd [] blocks)) /\ f = concat blocks.
+Proof. destruct blocks as [|b0 t]; unfold vstack_flatten.
+  - split; [discriminate|]. intros [H _]. congruence.
+  - destruct (forallb (fun b => Nat.eqb (length b) (length b0)) (b0 :: t)) eqn:E.
+    + rewrite forallb_forall in E. split.
+      * intros H. injection H as <-. split; [discriminate|]. split; [|reflexivity].
+        intros b Hb. apply Nat.eqb_eq. now apply E.
+      * intros [_ [_ ->]]. reflexivity.
+    + split; [discriminate|]. intros [_ [H _]].
+      assert (X : forallb (fun b => Nat.eqb (length b) (length b0)) (b0 :: t) = true).
+      { apply forallb_forall. intros b Hb. apply Nat.eqb_eq. now apply H. }
+      congruence. Qed.
+
+Lemma Forall_exists_Forall2 {X Y : Type} (R : X -> Y -> Prop) (l : list X) :
+  Forall (fun a => exists c, R a c) l -> exists l', Forall2 R l l'.
+Proof. induction 1 as [|a l [c Hc] _ [l' IH]]; [exists []; constructor|]. exists (c :: l'). now constructor. Qed.
+Lemma Forall2_Forall_exists {X Y : Type} (R : X -> Y -> Prop) (l : list X) l' :
+  Forall2 R l l' -> Forall (fun a => exists c, R a c) l.
+Proof. induction 1; constructor; [eexists; eassumption|assumption]. Qed.
+
+(* the coded estimator returns values exactly when: the guard passes, the solve step certifies an inverse, and every
+   dataset consists of equally long blocks with m entries in total *)
+Theorem coded_returns_iff m n (A : mat) b (sq : list (dataset F)) :
+  (exists xs, calc_estimate_sequence m n A b sq = E_ok xs) <->
+  coded_guard m n A = true /\ (exists M, solve m n A = S_inv M) /\ Forall (fun ds => exists f, flat_ok m ds f) sq.
+Proof. unfold calc_estimate_sequence. split.
+  - intros [xs H]. destruct (coded_guard m n A); [|discriminate]. cbn [negb] in H.
+    destruct (solve m n A) as [M|w|]; try discriminate. split; [reflexivity|]. split; [now exists M|].
+    apply est_loop_spec in H. destruct H as [fs [H _]]. now apply Forall2_Forall_exists in H.
+  - intros [Hg [[M HM] Hf]]. rewrite Hg, HM. cbn [negb].
+    destruct (Forall_exists_Forall2 _ _ Hf) as [fs Hfs].
+    exists ([] ++ map (one_estimate m n M A b) fs). apply est_loop_spec. now exists fs. Qed.
 
 (* exact recovery through the coded estimator: dataset i holds the exact distributions of v  ->  result i is v *)
 Theorem coded_exact_recovery m n (A : mat) b sq xs v :
